@@ -18,7 +18,18 @@ from icalendar.cal import Event, Calendar
 from icalendar.prop import vText
 
 W = ("a", "é", "€", "\U0001F600", " ", "\t", "\r", "\u0301", "\u3099")
+# characters Python's text layer treats specially (BOM stripped by utf-8-sig, str.splitlines() separators, NUL): same
+# widths as members of W, but a "same width class behaves the same" assumption is exactly what a change may break
+X = ("\ufeff", "\u2028", "\x0b", "\x85", "\x00", "\x1c")
 LIMIT = 75
+
+
+def words_extra(maxlen):
+    """Words over W + X that contain at least one character of X."""
+    for n in range(1, maxlen + 1):
+        for t in itertools.product(W + X, repeat=n):
+            if any(c in X for c in t):
+                yield "".join(t)
 
 
 def words(maxlen, minlen=0):
@@ -142,17 +153,35 @@ def run(ctx):
     ctx.rule = ("E-enum over width alphabet W={a,e-acute(2 octets),euro(3),emoji(4),SP,TAB,CR,U+0301,U+3099}: (i) all lines a^p.w.b^s, "
                 f"p in 0..160, w in W^<={j}, s in {TAILS_Q}; (ii) all periodic lines a^p.(w)^r, w in W^1..{m}, p in 0..3, "
                 f">=165 octets; (iii) a^p.w.b^s (w in W^<={jc}) as property value, parameter value and ALTREP+DESCRIPTION "
-                "of an event inside a calendar. non-trivial = the line was actually folded.")
+                "of an event inside a calendar; (iv)/(v) the same shapes with words over W + {U+FEFF, U+2028, VT, U+0085, NUL, FS} containing at least one of these. non-trivial = the line was actually folded.")
     ctx.bounds = {"alphabet": [repr(c) for c in W], "prefix_len": "0..160", "w_len_i": j, "w_len_ii": m,
                   "tails": list(TAILS_Q), "limit": LIMIT}
     ctx.assumptions += ["lines contain no LF (the library asserts this; statement quantifies over lines without LF)",
-                        "characters outside W (other scalar values of the same UTF-8 width) fold like their width class"]
+                        "characters outside W and the six special characters (other scalar values of the same UTF-8 width) fold like their width class"]
 
     def gen_i():
         for w in words(j):
             for p in range(0, 161):
                 for s in TAILS_Q:
                     yield ("pws", p, w, s)
+
+    def gen_x():
+        jx, mx = (2, 3) if ctx.quick else (3, 4)
+        for w in words_extra(jx):
+            for pp in range(0, 161):
+                for sfx in (0, 74, 150):
+                    yield ("pws", pp, w, sfx)
+        for w in words_extra(mx):
+            blen = len(w.encode("utf-8"))
+            for pp in range(0, 4):
+                yield ("per", pp, w, -(-165 // blen))
+
+    def gen_xc():
+        for where in ("value", "param", "two"):
+            for w in words_extra(1 if ctx.quick else 2):
+                for pp in range(0, 161):
+                    for sfx in (0, 74):
+                        yield ("comp", where, pp, w, sfx)
 
     def gen_ii():
         for w in words(m, 1):
@@ -171,3 +200,5 @@ def run(ctx):
     ctx.explore("i:prefix-word-tail", gen_i, run_line)
     ctx.explore("ii:periodic", gen_ii, run_line)
     ctx.explore("iii:component", gen_iii, run_component)
+    ctx.explore("iv:special-characters", gen_x, run_line)
+    ctx.explore("v:special-characters-in-components", gen_xc, run_component)
